@@ -15,7 +15,10 @@
  *          whole source buffer unchanged; FALSE => nothing changed.
  *   boxes/rects : the result equals compositing a solid-fill image of the colour over each box with
  *          the same operator on an identical destination (same clip), on the defined bits of every
- *          pixel; every bit outside the pixel rows is unchanged; the call returns TRUE.
+ *          pixel; every bit outside the pixel rows is unchanged; the call returns TRUE.  The boxes
+ *          of the reference are first cut to the image bounds (the same picture for a solid source):
+ *          pixman_image_composite32 itself returns without drawing when the visible part of a request
+ *          lies more than 32767 pixels from its origin; failures of that kind are tagged [far-origin].
  *          Second reference for formats with at most 8 bits per channel: a 1x1 repeating a8r8g8b8
  *          image holding color_to_uint32 (colour).
  */
@@ -301,28 +304,29 @@ static void exec_boxes (FILE *out, FILE *orc, long ln, int cfg, int is_rects)
         long long b0 = ((long long) bits + (long long) r * rowstride) * 32;
         for (long long k = 0; k < rowbits; k++) pm[(b0 + k) >> 5] |= 1u << ((b0 + k) & 31);
     }
-    int eqB = 1, eqD = 1, eqBD = 1; long wB = -1;
+    /* the reference is D: B with every box first cut to the image bounds.  B == D unless
+     * pixman_image_composite32 dropped a request (visible part more than 32767 px from the box origin) */
+    int eqD = 1, eqBD = 1; long wD = -1;
     for (long i = 0; i < n; i++)
     {
         uint32_t m = pm[i] & wm;
-        if ((A.w[i] & m) != (B.w[i] & m)) { if (eqB) wB = i; eqB = 0; }
-        if ((A.w[i] & m) != (D.w[i] & m)) eqD = 0;
+        if ((A.w[i] & m) != (D.w[i] & m)) { if (eqD) wD = i; eqD = 0; }
         if ((B.w[i] & m) != (D.w[i] & m)) eqBD = 0;
     }
-    if (eqB && !eqBD) fprintf (orc, "NOTE %ld far-origin fallback: composite32 (and so fill_boxes) omitted a box\n", ln);
+    if (eqD && !eqBD) fprintf (orc, "NOTE %ld far-origin box drawn by the direct fill (composite32 would drop it)\n", ln);
     int done = 0;
     for (long i = 0; i < n && !done; i++)
     {
         uint32_t m = pm[i] & wm;
         if ((A.w[i] & ~pm[i]) != (A.snap[i] & ~pm[i]))
         { fprintf (orc, "ORACLE %ld boxes frame: word %ld outside the pixel rows changed (%08x -> %08x)\n", ln, i, A.snap[i], A.w[i]); done = 1; }
-        else if (!eqB && i == wB)
+        else if (!eqD && i == wD)
         {
             fprintf (orc, "ORACLE %ld boxes vs solid composite%s: word %ld is %08x, compositing gives %08x (initially %08x)\n", ln,
-                     (eqD && !eqBD) ? " [far-origin: equals compositing the boxes cut to the image bounds]" : "", i, A.w[i] & m, B.w[i] & m, A.snap[i] & m);
+                     !eqBD ? " [far-origin: a box whose visible part is more than 32767 px from its origin is omitted]" : "", i, A.w[i] & m, D.w[i] & m, A.snap[i] & m);
             done = 1;
         }
-        else if (eqB && narrow && (A.w[i] & m) != (C.w[i] & m))
+        else if (eqD && eqBD && narrow && (A.w[i] & m) != (C.w[i] & m))
         { fprintf (orc, "ORACLE %ld boxes vs 1x1 repeat composite: word %ld is %08x, compositing gives %08x (initially %08x)\n", ln, i, A.w[i] & m, C.w[i] & m, A.snap[i] & m); done = 1; }
     }
     free (inrow); free (pm);
